@@ -8,8 +8,9 @@ VERIF = os.path.dirname(os.path.dirname(os.path.abspath(__file__)))
 CLAIMED = {
     "C01": ("Coq theorems (any length, any values, both rules on both sides, every power function meeting PwOk, all three fixed-point modes): the "
             "stretching kernel hits its target integral exactly, sequential in-place window stretching gives every window its own reference "
-            "integral, the total follows; integer exponents satisfy PwOk with no assumption. Tied to match.py by in-Coq correspondence.",
-            "hand-written model coq/Model/Match.v tied by sampled correspondence; real t^alpha meeting PwOk is pen-and-paper; floats not modelled",
+            "integral, the total follows; integer exponents satisfy PwOk with no assumption. The arithmetic of _integral_matching_stretch is REGENERATED from match.py on every run "
+            "(Gen/Kernels.v) and proved equal to the model's kernel, so a formula edit breaks an obligation; the control flow is tied by in-Coq correspondence.",
+            "tools/translate.py (Kernels target); hand-written control flow of coq/Model/Match.v tied by sampled correspondence; real t^alpha meeting PwOk is pen-and-paper; floats not modelled",
             "Coq proof (linearity of the integral, window induction) + in-Coq correspondence"),
     "C02": ("Coq theorems, strategy-independent (any fine series of the right length, hence every strategy and parameter choice): default "
             "fixed points are every n-th sample, every block integral equals average*width under both target rules, rectangle block averaging "
@@ -30,7 +31,8 @@ CLAIMED = {
             "average and the neighbour's on its side, plateau samples equal the average exactly (so at most al+ar-1 <= a-1 differ), adaptive windows "
             "satisfy al+ar <= a <= n for any smoothing, linear transitions are monotone, exp transitions are monotone for exponent >= 1 (every integer "
             "exponent outright) and for the concave bundle; the FULL monotone claim is refuted in Coq (C05_monotone_exp_refuted) = known finding F1; "
-            "piecewise-constant exact, constant series constant. Cubic spline through points: oracle contract + check.",
+            "piecewise-constant exact, constant series constant; strategy-level corollaries (C05_*_bounded, C05_final_sample) state all of this about the "
+            "actual output lists. Cubic spline through points: oracle contract + check.",
             "closed forms Model/RfaSpec.v linked to Model/Rfa.v in Coq; Rfa.v tied to rfa.py by sampled correspondence; real t^alpha meeting the "
             "bundles is pen-and-paper; cubic spline is SciPy's; known finding F1 (monotonicity for exponent < 0.1330)",
             "Coq proof (refinement of the write loop to closed forms + real-closed-field reasoning) + in-Coq correspondence"),
@@ -43,7 +45,8 @@ CLAIMED = {
             "Coq proof over generated definitions + in-Coq correspondence"),
     "C07": ("Coq theorems on the closed forms the strategies compute: y -> a*y+b and x -> c*x+d equivariance of borders, shapes and adaptive windows "
             "(windows depend on values only through ratios of absolute jumps), locality (radius 1 fixed, 2 adaptive), additivity and monotonicity "
-            "in the values for the fixed strategies, piecewise-constant linearity; plus metamorphic pairs of real runs. Cubic spline: oracle only.",
+            "in the values for the fixed strategies, piecewise-constant linearity; transported through the link theorems to the strategies' output lists "
+            "(C07_strategies_y_affine / _x_affine); plus metamorphic pairs of real runs. Cubic spline: oracle only.",
             "closed forms of Model/RfaSpec.v (linked to the model in C05); cubic spline is SciPy's",
             "Coq proof + in-Coq correspondence + metamorphic oracle"),
     "C15": ("Coq theorems: noise changes y only, additively by the draw; scale^2 * SNR = mean(y^2) (signal power, not squared mean). Partial: zero "
